@@ -23,11 +23,11 @@ def run(ck):
             w.mem.pop(('G', 'self_written_outside'), None)
         extra = dict(c09.ENCCFG)
         extra['store_hook'] = store_hook
-        extra['call_hooks'] = {ENC + 'check_label_re_use': on_clru}
+        extra['call_hooks'] = {clru_key(f): on_clru}
 
         def clru_ret(I, w, frame, site, args, rv):
             w.mem[('G', '~decided')] = rv       # the label check_label_re_use decided to send
-        extra['ret_hooks'] = {ENC + 'check_label_re_use': clru_ret}
+        extra['ret_hooks'] = {clru_key(f): clru_ret}
 
 
         def decided(W):
@@ -294,7 +294,7 @@ def sender_wrapper_rules(ck, f, c, r_fail, r_ok):
             w.mem.pop(('G', 'self_written_outside'), None)
         extra = dict(c09.ENCCFG)
         extra['store_hook'] = store_hook
-        extra['call_hooks'] = {ENC + 'check_label_re_use': on_clru}
+        extra['call_hooks'] = {clru_key(f): on_clru}
         a = analyse_writer(ck, ENC + wname, tag='c04', extra=extra)
         init = c09.self_fields(a, a.w0)
         for w, rv in a.rets:
